@@ -16,7 +16,7 @@ LEAN_MODULES = ["PorepyVerif.C46.Props"]
 AUDIT = "PorepyVerif/C46/Audit.lean"
 DRIVER = "PorepyVerif/C46/Driver.lean"
 N = {"quick": 300, "thorough": 6000}
-RULE = ("histories of 1-14 add/get calls on SparseNdArray(dim 1-3, value_dim 1-2); coordinates from a box of side 2-4 so that "
+RULE = ("histories of 1-14 add/get calls (gets may precede the first add) on SparseNdArray(dim 1-3, value_dim 1-2); coordinates from a box of side 2-4 so that "
         "duplicates inside and across batches are frequent; values are small dyadic rationals (binary64 exact); "
         "non-trivial = at least one batch updates >=2 already stored coordinates or has an in-batch duplicate, and at least one get; "
         "distinct = distinct op sequences")
@@ -34,7 +34,9 @@ def gen_case(rng, tier):
     ops = []
     seen = set()
     for _ in range(nops):
-        if rng.random() < 0.6 or not seen:
+        # gets may come before the first add (reading the still-empty array must raise, and must
+        # not disturb later calls): seeded change seeded/C46 needs exactly that history
+        if rng.random() < 0.6 or (not seen and rng.random() < 0.7):
             k = rng.randint(1, 6)
             coords = [[rng.randrange(-1, side) for _ in range(dim)] for _ in range(k)]
             vals = [[frac(Fraction(rng.randint(-64, 64), rng.choice([1, 2, 4, 8]))) for _ in range(k)] for _ in range(vdim)]
@@ -43,7 +45,7 @@ def gen_case(rng, tier):
         else:
             k = rng.randint(1, 5)
             pool = sorted(seen)
-            coords = [list(rng.choice(pool)) for _ in range(k)]
+            coords = [list(rng.choice(pool)) if pool else [rng.randrange(-1, side) for _ in range(dim)] for _ in range(k)]
             if rng.random() < 0.15:  # sometimes ask for a coordinate never inserted
                 coords[rng.randrange(k)] = [rng.randrange(-1, side + 1) for _ in range(dim)]
             ops.append({"op": "get", "coords": coords})
